@@ -62,6 +62,26 @@ def showTanA : Except Err (List (Option (Rat × Rat))) → String
     s!"ok {showList a} {showList b} {showNatList m}"
   | .error e => s!"err {e}"
 
+def parseEV (s : String) : Option EV :=
+  if s == "inf" then some .pinf else (parseRat s).map .fin
+
+def showEV : EV → String
+  | .fin r => showRat r
+  | .pinf => "inf"
+
+/-- list of extended values: `[1/2,inf,3]` -/
+def parseEVList (s : String) : Option (List EV) := do
+  let body ← unbracket s
+  if body.isEmpty then some [] else (body.splitOn ",").mapM parseEV
+
+def showEVE : Except Err (EV × EV) → String
+  | .ok p => s!"ok {showEV p.1} {showEV p.2}"
+  | .error e => s!"err {e}"
+
+def showEVEA : Except Err (List (EV × EV)) → String
+  | .ok l => "ok [" ++ ",".intercalate (l.map (fun p => showEV p.1)) ++ "] [" ++ ",".intercalate (l.map (fun p => showEV p.2)) ++ "]"
+  | .error e => s!"err {e}"
+
 def handle : List String → String
   | ["consts"] => s!"ok {showRat piD} {showRat twopiD}"
   | ["abs", "S", lo, hi] =>
@@ -81,6 +101,14 @@ def handle : List String → String
     | some kind, some k, some [lo, hi] =>
       if lo.length == hi.length then showEA (powA kind k lo hi) else "bad-op"
     | _, _, _ => "bad-op"
+  | ["exp", "S", _, _, flo, fhi] =>
+    match parseEV flo, parseEV fhi with
+    | some a, some b => showEVE (expIE a b)
+    | _, _ => "bad-op"
+  | ["exp", "A", _, _, flo, fhi] =>
+    match parseEVList flo, parseEVList fhi with
+    | some a, some b => if a.length == b.length then showEVEA (expAE (a.zip b)) else "bad-op"
+    | _, _ => "bad-op"
   | [fn, "S", lo, hi, flo, fhi] =>
     match [lo, hi, flo, fhi].mapM parseRat with
     | some [lo, hi, flo, fhi] =>
@@ -101,21 +129,21 @@ def handle : List String → String
       | _ => "bad-op"
     | _ => "bad-op"
   | ["sig", "S", enh, enl] =>
-    match parseRat enh, parseRat enl with
-    | some a, some b => showE (sigmoidI a b)
+    match parseEV enh, parseEV enl with
+    | some a, some b => showE (sigmoidIE a b)
     | _, _ => "bad-op"
   | ["sig", "A", enh, enl] =>
-    match lists [enh, enl] with
-    | some [a, b] => if a.length == b.length then showEA (sigmoidA a b) else "bad-op"
-    | _ => "bad-op"
+    match parseEVList enh, parseEVList enl with
+    | some a, some b => if a.length == b.length then showEA (sigmoidAE (a.zip b)) else "bad-op"
+    | _, _ => "bad-op"
   | ["tanh", "S", e2l, e2h] =>
-    match parseRat e2l, parseRat e2h with
-    | some a, some b => showE (tanhI a b)
+    match parseEV e2l, parseEV e2h with
+    | some a, some b => showE (tanhIE a b)
     | _, _ => "bad-op"
   | ["tanh", "A", e2l, e2h] =>
-    match lists [e2l, e2h] with
-    | some [a, b] => if a.length == b.length then showEA (tanhA a b) else "bad-op"
-    | _ => "bad-op"
+    match parseEVList e2l, parseEVList e2h with
+    | some a, some b => if a.length == b.length then showEA (tanhAE (a.zip b)) else "bad-op"
+    | _, _ => "bad-op"
   | [fn, "S", lo, hi, w, yl, yh, sl, sh] =>
     match [lo, hi, w, yl, yh, sl, sh].mapM parseRat with
     | some [lo, hi, w, yl, yh, sl, sh] =>
